@@ -113,8 +113,23 @@ func runCodecCase(e *Env, c *jCodecCase) error {
 		dimsByTag[di] = bytemap.New(dims)
 		di++
 	}
-	g, _ := exprCaseGal(&c.jExprCase, dec, func(p XPoint) goexpr.Params { return dimsByTag[p.tag] })
-	gal := fmt.Sprintf("CodecCase %s %s %s\n  (%s)", gbool(out.Fields[0].Name == "f"), gbool(dec.String() == orig.String()), gbool(dec.EncodedWidth() == orig.EncodedWidth()), g)
+	// the decoded object is run on the case's points; if it panics (a decoded expression with, say, a wrong width
+	// slices out of range) that is this case's outcome, not the end of the run
+	var g string
+	panicked := false
+	func() {
+		defer func() {
+			if p := recover(); p != nil {
+				panicked = true
+			}
+		}()
+		g, _ = exprCaseGal(&c.jExprCase, dec, func(p XPoint) goexpr.Params { return dimsByTag[p.tag] })
+	}()
+	if panicked {
+		e.Count("decoded_object_panicked")
+		g, _ = exprCaseGal(&c.jExprCase, orig, func(p XPoint) goexpr.Params { return dimsByTag[p.tag] })
+	}
+	gal := fmt.Sprintf("CodecCase %s %s %s\n  (%s)", gbool(out.Fields[0].Name == "f" && !panicked), gbool(dec.String() == orig.String()), gbool(dec.EncodedWidth() == orig.EncodedWidth()), g)
 	c.NT = c.E.Size() >= 2
 	e.Case(gal, c)
 	for _, k := range []string{"agg", "avg", "bin", "if", "bounded", "shift", "unary"} {
